@@ -103,7 +103,7 @@ def run(ctx):
     stats = {"problems": 0, "skipped": 0, "plans": 0, "valid": 0, "invalid": 0, "empty_plans": 0, "raised": 0,
              "metrics": {}, "valid_with_metric": 0}
     nontrivial = set()
-    gens = [(hp, None) for hp in sx.corpus_problems()]
+    gens = [(hp, None) for hp in sx.corpus_problems() + sx.metric_corpus()]
     for i in range(nprob):
         gens.append((None, {"metrics": True, "max_actions": 2}))
     for pi, (hp, knobs) in enumerate(gens):
